@@ -937,8 +937,18 @@ static int conf_replace_value(struct conf_node_base *target_, struct conf_node_b
                         modified = 1;
                     tnode = next;
                 } else {
-                    /* Present in both: update value. */
-                    conf_replace_value(set_node_data(tnode), set_node_data(snode));
+                    /* Present in both: update value, and adopt the new
+                     * spelling of a name that changed only in case. */
+                    struct conf_node_base *tbase = set_node_data(tnode);
+                    struct conf_node_base *sbase = set_node_data(snode);
+
+                    if (strcmp(tbase->name, sbase->name)) {
+                        char *name = tbase->name;
+                        tbase->name = sbase->name;
+                        sbase->name = name;
+                        modified = 1;
+                    }
+                    conf_replace_value(tbase, sbase);
                     tnode = set_next(tnode);
                     snode = set_next(snode);
                 }
